@@ -204,6 +204,10 @@ impl ConditionEvaluator {
                     }
                 }
                 for (field, values) in &str_fields {
+                    if values.is_null_at(i) {
+                        builder.add_field_null(field);
+                        continue;
+                    }
                     if let Some(value) = values.get_str_at(i) {
                         builder.add_field_str(field, value);
                     } else {
